@@ -252,9 +252,10 @@ OnMrg(s, e) ==
                 \* its own location (e.g. error(None, ..) followed by merge(accumulated, e, location)): nothing is lost or doubled
                 \* by that - the bag check at its return still decides - and the answer counts like any other answer
                 selfm == mine = {} /\ e.loc = F.loc /\ Len(e.other) > 0 /\ SeqToSet(e.other) \subseteq F.since /\ e.ety = F.ety
-                         /\ F.ph = "work" /\ ~F.brk
+                         /\ F.ph = "work"
                          /\ \A ob \in F.pend : ob.o = "handover" => SeqToSet(F.hand[ob.i].ids) \cap SeqToSet(e.other) = {}
-            IN IF selfm THEN [s1 EXCEPT !.stack = SetTop(s.stack, [F EXCEPT !.brk = (e.ans = "b")]), !.cur = [@ EXCEPT !.stopped = (e.ans = "b")]]
+            \* (also after a stop: it only passes the built error on; the stop that was answered in this frame stays in force - C03)
+            IN IF selfm THEN [s1 EXCEPT !.stack = SetTop(s.stack, [F EXCEPT !.brk = (@ \/ e.ans = "b")]), !.cur = [@ EXCEPT !.stopped = (e.ans = "b")]]
                ELSE IF hs = {} THEN
                     (IF F.brk \/ F.ph = "fin" THEN Flag(s1, {"C03"}, "a hand-over happens although nothing was returned to hand over after the stop")
                      ELSE Flag(s1, {"C01", "C11"}, "an error is handed over that no child returned"))
